@@ -67,6 +67,14 @@ CHECKS.update({
             "DESIGN.md §4 C14"),
 })
 
+CHECKS.update({
+    "C13": ("model_checking", "E3+E2",
+            "bounded-exhaustive enumeration of (local entry, incoming entry) time pairs on two keys for three backends + exhaustive enumeration of enqueue sequences on real mesh gossip senders fed by a real Swarm, each run under a one-thread controlled scheduler (deadlock detection)",
+            "(a) all 65 536 combinations of add/remove times {absent,1,2,3} of local and incoming entries on two keys for Volatile<-Volatile, Durable<-Volatile and State.Merge: the delta must hold exactly the strictly newer components, be empty/nil iff nothing changed, and the local state must be the pointwise maximum. (b) every sequence of <=2 (quick) / <=3 (thorough) Broadcast/Send calls on one or two real gossipSender objects with payloads produced by a real Swarm (Notify operations, an OnGossip delta, the live Gossip() state, the same object on both links): after draining, every link must have sent at least the union of what was queued; panics and deadlocks are violations.",
+            "senders are real mesh gossipSender objects without their goroutine; picking order as in mesh (gossip bucket first).",
+            "DESIGN.md §4 C13"),
+})
+
 NOT_YET = {}
 
 
